@@ -242,15 +242,11 @@ class Ref:
             if k in ("atmost", "atleast", "exactly_row", "exactly_k") and f in self.derived and self.is_complex(f):
                 # runs/counts over trials where the factor has no level: documented on "trials"; fine for stride 1
                 pass
-            if k == "pin" and f in self.derived and self.is_complex(f):
-                T = C["T"]
-                if T is not None:
-                    i = c["index"]
-                    t = i if i >= 0 else T + i
-                    if 0 <= t < T and not self.applicable(f, t):
-                        self.amb("pin-on-inapplicable")
-                    # the library indexes applicable trials for complex factors in one sampler and absolute in the other
-                    self.amb("pin-on-complex")
+            if k in ("sequential", "latin"):
+                for g in ([f] if k == "sequential" else c["factors"]):
+                    if any(w > 1 for w in self.level_weight[g].values()):
+                        # refused for crossed factors; for uncrossed ones the library orders the hidden copies
+                        self.amb("weights-in-order-constraint")
             if k == "sequential":
                 if any(f in i["factors"] and i["start"] > 0 for i in C["crossings"]):
                     self.amb("sequential-with-preamble")
